@@ -426,7 +426,7 @@ Proof.
     rewrite report_is_recount; [reflexivity| |assumption|assumption]. exists F, dt, d2. assumption.
 Qed.
 
-(* --strict / --fix N (N <> 0) on any directory that the tolerance can repair: the files afterwards are the
+(* --strict / --fix N (any N) on any directory that the tolerance can repair: the files afterwards are the
    repaired ones and the report is their recount *)
 Lemma cli_report_after_fix strict fx d :
   cli_validates strict fx = true -> tokens_nonneg d -> classes_nonneg d ->
